@@ -21,7 +21,14 @@ OP_ENUM, OP_CONSTANT_INT = 11, 31
 
 class Ids(object):
     def __init__(self):
-        self.keep, self.num = [], {}
+        self.keep, self.num, self.classes = [], {}, {}
+
+    def cls(self):
+        """identity number -> equality-class number (model types other than struct/union/enum compare structurally)"""
+        out = []
+        for o in self.keep:
+            out.append([self.num[id(o)], self.classes.setdefault(o, len(self.classes) + 1)])
+        return out
 
     def __call__(self, obj):
         k = id(obj)
@@ -106,7 +113,10 @@ def run_inline(case):
                 exc = exc_name(e)
             after = snapshot(ffis[i], ids)
             bad = predicate_after_include(ffis[i], ffis[j], None) if exc is None else []
-            steps.append(dict(i=i, j=j, before=before, other=other, after=after, exc=exc, bad=bad))
+            cls = dict(ids.cls())
+            after["incl_classes"] = sorted(set(cls[o] for o in after["incl"]))
+            steps.append(dict(i=i, j=j, before=before, other=other, after=after, exc=exc, bad=bad,
+                              cls=sorted(cls.items())))
     # field types of later declarations are the included objects
     uses = []
     for u in case.get("uses", []):
@@ -219,6 +229,8 @@ def run_ool(case, idx):
                     except Exception as e:
                         bad.append(dict(kind=kind, type=ts, m=k, inc=j, what="raises " + exc_name(e)))
                 for name, val in case["mods"][j]["consts"]:
+                    if name.startswith("dup"):
+                        continue    # deliberately clashes with a function of the same name elsewhere: lookups only
                     try:
                         got = mods[k].ffi.integer_const(name)
                         if got != val:
